@@ -114,6 +114,11 @@ def gen_case(rng, nops, untrusted=False):
                 seg = rng.shuffle(seg)            # out of order
             if rng.chance(1, 8):
                 seg = seg + seg[:1]               # duplicated header
+            if rng.chance(1, 6):                  # another branch continues in the same message
+                br2 = rng.choice(t.branches)
+                p2 = t.path_to(br2[-1])
+                k = rng.below(len(p2))
+                seg = seg + p2[k:k + rng.range(1, 3)]
             ops.append(["headers", t.pairs(seg)])
             announced += seg
         elif k == "empty":
@@ -191,6 +196,15 @@ def scripted_cases(long=True):
            ["block", 5, 1], ["block", 5, 1], ["process"], ["process"], ["headers", [[30, 5], [31, 30]]], ["process"],
            ["block", 30, 1], ["block", 31, 1], ["process"], ["process"], ["process"], ["headers", []], ["check"]]
     res.append({"cfg": {"parents": par, "start": 4}, "ops": ops})
+    # before the start block is found (headers are stored without blocks): a message that forks below the tip and
+    # then continues the OLD tip / mixes branches in one message
+    par = [[i, i - 1] for i in range(1, 9)] + [[20, 3], [21, 20], [22, 21]]
+    for start in (40, 7, 22):
+        for second in ([[20, 3], [6, 5]], [[20, 3], [21, 20], [6, 5], [7, 6]], [[6, 5], [20, 3], [7, 6]], [[20, 3], [4, 3], [5, 4]]):
+            ops = [["version"], ["check"], ["headers", [[i, i - 1] for i in range(1, 6)]], ["headers", second], ["check"],
+                   ["headers", [[21, 20], [22, 21]]], ["headers", [[6, 5], [7, 6], [8, 7]]], ["process"], ["check"], ["restartnode"],
+                   ["version"], ["check"]]
+            res.append({"cfg": {"parents": par, "start": start}, "ops": ops})
     if long:
         res += long_cases()
     return res
